@@ -119,3 +119,17 @@ def check(chk):
     chk.judge('except KeyError' in s, 'C30.pk', fm, 'a missing key component leaves routing_key_indexes None', 'partial key produces a routing key')
     calls = [n for n in body_walk(fm) if isinstance(n, ast.Call) and src(n.func) == 'PreparedStatement']
     chk.judge(all(len(c.args) >= 3 and src(c.args[2]) in ('routing_key_indexes', 'None') for c in calls) and len(calls) == 2, 'C30.pk', fm, 'indexes passed as the routing_key_indexes argument', 'argument roles changed')
+
+    # the routing key is cached on first use: binding new values must drop the cached key, or the statement is routed by the previous row's token
+    chk.rule('C30.cache', 'BoundStatement.bind, which rebinds self.values, resets the cached _routing_key')
+    qm_ = chk.repo.mod('cassandra/query.py')
+    bind_ = qm_.func('BoundStatement.bind')
+    writes_values = [a for a in body_walk(bind_) if isinstance(a, ast.Assign) and any(src(t) == 'self.values' for t in a.targets)]
+    resets = [a for a in body_walk(bind_) if isinstance(a, ast.Assign) and any(src(t) == 'self._routing_key' for t in a.targets) and src(a.value) == 'None']
+    if not writes_values:
+        raise AnalysisError('BoundStatement.bind: assignment of self.values not found')
+    rk_ = qm_.func('BoundStatement.routing_key')
+    cached = any(isinstance(a, ast.Assign) and any(src(t) == 'self._routing_key' for t in a.targets) for a in body_walk(rk_))
+    chk.judge(bool(resets) or not cached, 'C30.cache', bind_, 'bind() resets self._routing_key when it rebinds self.values',
+              'routing_key caches its result in self._routing_key and bind() never clears it: a BoundStatement that is bound again after its routing key was read '
+              'keeps the key (and token) of the previous values')
